@@ -201,6 +201,12 @@ pub fn menu(ty: Ty, m: Menu) -> Vec<Atom> {
 pub struct Sel {
     pub atom: usize,
     pub child: Option<Vec<Sel>>,
+    /// metamorphic variants: select the same atom under another reader alias
+    #[serde(default)]
+    pub alias: Option<String>,
+    /// metamorphic variants: replace the atom's text (e.g. by a reference to an extracted client field)
+    #[serde(default)]
+    pub raw: Option<String>,
 }
 
 pub fn size(set: &[Sel]) -> usize {
@@ -223,7 +229,7 @@ pub fn selection_sets(ty: Ty, m: Menu, n: usize, depth: usize, avail: &[&str]) -
             }
             match at.child {
                 None => {
-                    cur.push(Sel { atom: i, child: None });
+                    cur.push(Sel { atom: i, child: None, alias: None, raw: None });
                     rec(atoms, m, i + 1, n - 1, depth, avail, out, cur);
                     cur.pop();
                 }
@@ -234,7 +240,7 @@ pub fn selection_sets(ty: Ty, m: Menu, n: usize, depth: usize, avail: &[&str]) -
                     // child takes k nodes (0..=n-1)
                     for k in 0..n {
                         for child in selection_sets(cty, m, k, depth - 1, avail) {
-                            cur.push(Sel { atom: i, child: Some(child) });
+                            cur.push(Sel { atom: i, child: Some(child), alias: None, raw: None });
                             rec(atoms, m, i + 1, n - 1 - k, depth, avail, out, cur);
                             cur.pop();
                         }
@@ -261,7 +267,19 @@ pub fn render_set(ty: Ty, m: Menu, set: &[Sel], indent: usize, vars: &mut Vec<(&
         }
         out.push_str(&pad);
         out.push_str("  ");
-        out.push_str(at.text);
+        if let Some(raw) = &s.raw {
+            out.push_str(raw);
+            out.push('\n');
+            continue;
+        }
+        match &s.alias {
+            // replace an existing reader alias, or add one
+            Some(al) => match at.text.split_once(": ") {
+                Some((head, rest)) if !head.contains('(') => out.push_str(&format!("{al}: {rest}")),
+                _ => out.push_str(&format!("{al}: {}", at.text)),
+            },
+            None => out.push_str(at.text),
+        }
         if let Some(ch) = &s.child {
             out.push(' ');
             out.push_str(&render_set(at.child.unwrap(), m, ch, indent + 1, vars));
@@ -331,7 +349,7 @@ pub fn programs(m: Menu, k: usize) -> Vec<Program> {
         for n in 0..=k {
             sets.extend(selection_sets(Ty::User, m, n, 1, &avail));
         }
-        let root = vec![Sel { atom: 0, child: Some(vec![Sel { atom: 1, child: None }]) }];
+        let root = vec![Sel { atom: 0, child: Some(vec![Sel { atom: 1, child: None, alias: None, raw: None }]), alias: None, raw: None }];
         for sa in &sets {
             for sb in &sets {
                 out.push(Program {
@@ -366,10 +384,10 @@ pub fn programs(m: Menu, k: usize) -> Vec<Program> {
                 let child = Decl::Field { ty: Ty::User, name: "UserChild".into(), set, component: false };
                 let mut root = vec![];
                 if let Some(me) = me {
-                    root.push(Sel { atom: me, child: Some(vec![Sel { atom: ci, child: None }]) });
+                    root.push(Sel { atom: me, child: Some(vec![Sel { atom: ci, child: None, alias: None, raw: None }]), alias: None, raw: None });
                 }
                 if let Some(u) = user {
-                    root.push(Sel { atom: u, child: Some(vec![Sel { atom: 0, child: None }, Sel { atom: ci, child: None }]) });
+                    root.push(Sel { atom: u, child: Some(vec![Sel { atom: 0, child: None, alias: None, raw: None }, Sel { atom: ci, child: None, alias: None, raw: None }]), alias: None, raw: None });
                 }
                 out.push(Program { menu: m, decls: vec![Decl::Field { ty: Ty::Query, name: "Root".into(), set: root, component: true }, child, ep.clone()] });
             }
